@@ -30,9 +30,9 @@ impl KeyId {
 }
 
 impl KeyId {
-//@extract src/crypto.rs "impl:FromStr for KeyId/fn:from_str" props=C14
+//@extract src/crypto.rs "impl:FromStr for KeyId/fn:from_str" props=C04,C02,C12,C14
 //@contract ret=r
-    ensures r is Ok ==> r->Ok_0.id() == string@,
+    ensures r is Ok ==> r->Ok_0.id() == string@,   // [C04,C02,C12] a key id is kept exactly as written: ids are compared as texts
 //@before /Ok\(KeyId\(/
     proof {
         vstd::string::is_ascii_spec_bytes(string);
